@@ -903,7 +903,11 @@ func runC05(f *common.Flags, res *common.Result, m *mdl) {
 		for _, rc := range degenerateEntries(0, ci) {
 			hs := []hop{{Kind: "put", ID: 1, C: ci}, {Kind: "write", K: "a", ID: 0, Raw: rc.raw}, {Kind: "get", ID: 0},
 				{Kind: "getbytes", ID: 0}, {Kind: "getfile", ID: 0}}
-			res.Count("raw:" + strings.SplitN(rc.tag, "@", 2)[0])
+			tagParts := strings.SplitN(strings.SplitN(rc.tag, "@", 2)[0], ":", 4)
+			if len(tagParts) > 3 {
+				tagParts = tagParts[:3]
+			}
+			res.Count("raw:" + strings.Join(tagParts, ":"))
 			one(hs, "degenerate")
 		}
 	}
